@@ -60,8 +60,8 @@ class SeqProp:
             print("[%s] ERROR: the harness does not build against /repo's working tree" % pid)
             write_evidence(pid, tier, seed, dict(obligations=proof["obligations"], discharged=0, checker_cmd="make Props/%s.vo" % pid,
                                                  trusted_base=TRUSTED, evaluations=0, distinct_nontrivial=0, rule=self.rule, samples=[],
-                                                 explanation="harness build failed"), self.assumptions, time.time() - t0, 0)
-            return 2
+                                                 explanation="harness build failed"), self.assumptions, time.time() - t0, 1)
+            return harness_broken(pid, tier, seed, out_h)
         # 3. scenarios
         r = random.Random(seed)
         if replay:
